@@ -459,6 +459,8 @@ def run_cli(text: str, symbol_cmd: bool, option: str = None):
         rc = mp.execute(argv, StdOutputFiles(out, err))
     except Exception as e:  # noqa
         rc, exc = None, e
+    except SystemExit as e:  # the program must return its exit code, not leave through sys.exit / exit() of an evaluated text
+        rc, exc = None, e
     os.chdir(cwd)
     after = sorted(os.listdir(case_dir))
     n_calls = len(_SubprocessStub.calls)
